@@ -401,6 +401,10 @@ where
         self.file.dirty_bytes()
     }
 
+    pub(crate) fn file_syncable_dirty_bytes(&self) -> u64 {
+        self.file.syncable_dirty_bytes()
+    }
+
     pub(crate) async fn fsyncdata(&self) -> IOResult<()> {
         self.file.fsyncdata().await
     }
